@@ -47,6 +47,8 @@ ASSUMPTIONS = [
     'values handed to set_value are of the parameter kind (Python int / numeric string for integer types, float '
     'representable in the declared format for float/double); int(3.7) truncation and binary64->binary32 rounding are not modelled',
     'dispatch iterates over a snapshot of the registrations (F07 repaired) and the misc closures compare the parameter id (F04 repaired)',
+    'several sessions on one Param object: a session may end at any point; the updater thread, woken by close(), is assumed to '
+    'reach its idle point (dropping a request it held) before the next open_link',
 ]
 PROVED = ('Over the model: set_value queues index || value in the declared type for all ten type codes (unique encoding, '
           'round trip), out-of-range / read-only / unknown raise with the state unchanged; for every event list (all '
@@ -285,8 +287,8 @@ def model_events(cfg, op):
     raise ValueError(op)
 
 
-def execute(case, rng=None):
-    """Run a case on the implementation.  If case['sched'] is None a schedule is generated with rng (and stored
+def execute(case, rng=None, harness=None):
+    """Run a case on the implementation (on `harness` if given: one session of a multi-session history).  If case['sched'] is None a schedule is generated with rng (and stored
     in the returned record); otherwise the stored schedule is followed (stops early if a step is not enabled).
     Returns dict(steps=[{ev, model, obs, snap}], sched=[...], problems=[...])."""
     import logging
@@ -294,7 +296,8 @@ def execute(case, rng=None):
     logging.disable(logging.CRITICAL)
     cfg = case['cfg']
     toc_by_name = {e[1]: e for e in cfg['toc']}
-    h = Harness(_cfg_for_harness(cfg))
+    own = harness is None
+    h = Harness(_cfg_for_harness(cfg)) if own else harness
     steps, sched, problems = [], [], []
     gen = case.get('gen') or {}
     try:
@@ -313,7 +316,9 @@ def execute(case, rng=None):
                     real.append(('misc', op[1], op[2], op[3]))
             threads.append(real)
         # 'readall' is the real request_update_of_all_params
-        orig_op = h.op
+        if not hasattr(h, '_orig_op'):
+            h._orig_op = h.op
+        orig_op = h._orig_op
 
         def op2(o):
             if o[0] == 'readall':
@@ -425,9 +430,165 @@ def execute(case, rng=None):
     except HarnessError as e:
         problems.append({'what': 'harness error', 'detail': str(e)})
     finally:
-        h.close()
-        logging.disable(logging.NOTSET)
+        if own:
+            h.close()
+            logging.disable(logging.NOTSET)
     return {'steps': steps, 'sched': sched, 'problems': problems}
+
+
+# ------------------------------------------------------------------------------------------------ several sessions, one Param
+
+def _quiet(sn):
+    return not sn['queue'] and not sn['hand'] and not sn['lock'] and sn['pat'] is None and not sn['nclos'] and not sn['out']
+
+
+def gen_sess_case(rng):
+    """2-3 sessions on one Crazyflie/Param object; the tables differ: indices permuted, types changed, names removed / added,
+    read-only and persistent flags flipped.  A name n is the same string 'g<n%3>.n<n>' in every session; the operations of
+    every session use names of ALL sessions (so names remembered from an earlier session are used again)."""
+    nn = rng.randint(3, 6)
+    names = list(range(nn))
+    pool_ids = [rng.randrange(6), rng.randrange(300), 255, 256, 65535] + rng.sample(range(0, 40), 8)
+    sessions = []
+    prev = None
+    cbn = iter(range(1000, 2000))
+    cbs = {'cb_param': [[rng.randrange(nn), next(cbn)] for _ in range(rng.randrange(3))],
+           'cb_group': [[rng.randrange(3), next(cbn)] for _ in range(rng.randrange(2))],
+           'cb_all': [next(cbn) for _ in range(rng.randrange(2))]}
+    tag = iter(range(1, 1000))
+    for k in range(rng.randint(2, 3)):
+        if prev is None:
+            present = [n for n in names if rng.random() < 0.85] or [0]
+            ids = rng.sample(sorted(set(pool_ids)), len(present))
+            toc = [[ids[j], n, n % 3, rng.choice(TYPES), int(rng.random() < 0.15), int(rng.random() < 0.7)] for j, n in enumerate(present)]
+        else:
+            toc = []
+            present = [e[1] for e in prev if rng.random() < 0.8] + [n for n in names if n not in [e[1] for e in prev] and rng.random() < 0.7]
+            present = present or [names[0]]
+            old = {e[1]: e for e in prev}
+            mode = rng.choice(['shift', 'permute', 'same'])
+            old_ids = [e[0] for e in prev]
+            if mode == 'shift':
+                ids = list(range(len(present)))
+            elif mode == 'permute':
+                ids = rng.sample(sorted(set(old_ids + pool_ids)), len(present))
+            else:
+                free = [i for i in sorted(set(pool_ids)) if i not in old_ids]
+                ids = []
+                for n in present:
+                    i = old[n][0] if n in old and old[n][0] not in ids else next(x for x in free + list(range(100, 200)) if x not in ids)
+                    ids.append(i)
+            for j, n in enumerate(present):
+                o = old.get(n)
+                ty = o[3] if o and rng.random() < 0.5 else rng.choice(TYPES)
+                ro = (1 - o[4]) if o and rng.random() < 0.3 else (o[4] if o else int(rng.random() < 0.15))
+                toc.append([ids[j], n, n % 3, ty, ro, int(rng.random() < 0.7)])
+        prev = toc
+        cfg = dict(cbs)
+        cfg.update({'toc': toc, 'fixed_groups': 1,
+                    'dev_init': {str(e[0]): gen_bytes(rng, e[3]) for e in toc},
+                    'dev_default': {str(e[0]): gen_bytes(rng, e[3]) for e in toc},
+                    'dev_enoent': [e[0] for e in toc if rng.random() < 0.1]})
+        tocn = {e[1]: e for e in toc}
+        threads = []
+        used = set()
+        for t in range(rng.randint(1, 2)):
+            ops = [['readall']] if t == 0 else []
+            for _ in range(rng.randint(2, 5)):
+                n = rng.choice(names)
+                ty = tocn[n][3] if n in tocn else rng.choice(TYPES)
+                r = rng.random()
+                if r < 0.55:
+                    spec = gen_setval(rng, ty)
+                    if n not in tocn:
+                        spec = ['i', rng.choice([0, 1, 70000, -1, 255]), False]
+                    ops.append(['set', n, spec])
+                elif r < 0.65:
+                    ops.append(['read', n])
+                else:
+                    cmd = rng.choice([3, 4, 5, 6])
+                    if n not in tocn and cmd == 6:
+                        cmd = 4
+                    if (cmd, n) in used:
+                        continue
+                    used.add((cmd, n))
+                    ops.append(['misc', cmd, n, next(tag)])
+            threads.append(ops)
+        sessions.append({'cfg': cfg, 'threads': threads, 'sched': None,
+                         'gen': {'burst': rng.random() < 0.4, 'drain': rng.random() < 0.45, 'notify': rng.choice([0, 0.05]), 'stray': 0,
+                                 'budget': rng.choice([8, 15, 30, 50])}})
+    return {'kind': 'sess', 'sessions': sessions}
+
+
+def execute_sess(case, rng=None):
+    """the sessions of a case, one after the other, on ONE Harness (one Crazyflie, one Param, one updater thread);
+    a session may be cut at any point (requests queued, on the wire, misc callbacks pending)"""
+    import logging
+    from fakes.c04_sched import Harness, HarnessError
+    logging.disable(logging.CRITICAL)
+    recs = []
+    h = None
+    try:
+        for k, sc in enumerate(case['sessions']):
+            cfgh = _cfg_for_harness(sc['cfg'])
+            if h is None:
+                h = Harness(cfgh)
+            else:
+                if recs[-1]['problems']:
+                    break
+                try:
+                    h.reconnect(cfgh)
+                except HarnessError as e:
+                    recs.append({'steps': [], 'sched': [], 'problems': [{'what': 'harness error at reconnect', 'detail': str(e)}]})
+                    break
+            recs.append(execute(sc, rng, harness=h))
+    finally:
+        if h is not None:
+            h.close()
+        logging.disable(logging.NOTSET)
+    return recs
+
+
+def sess_term(case, recs):
+    return 'sess_trace [%s]' % '; '.join(
+        '(%s, [%s])' % (coq_cfg(sc['cfg']), '; '.join('[' + '; '.join(m if m.startswith('XStray') else 'XE (%s)' % m for m in st['model']) + ']'
+                                                     for st in rec['steps']))
+        for sc, rec in zip(case['sessions'], recs))
+
+
+def sess_trace(case, recs):
+    out = []
+    for sc, rec in zip(case['sessions'], recs):
+        out += impl_trace(sc['cfg'], rec)[0]
+    return out
+
+
+def check_sess(case, recs):
+    """the property text, session by session: each session is judged against the table and device connected in it"""
+    fails = []
+    owner = {}
+    for k, sc in enumerate(case['sessions']):
+        for ops in sc['threads']:
+            for op in ops:
+                if op[0] == 'misc' and op[3] is not None:
+                    owner[op[3]] = (k, op[1], op[2])
+    for k, (sc, rec) in enumerate(zip(case['sessions'], recs)):
+        for si, st in enumerate(rec['steps']):
+            for o in st['obs']:
+                if o[0] == 'misc' and o[1] in owner and owner[o[1]][0] < k:
+                    rx = next((x for x in st['obs'] if x[0] == 'rx'), None)
+                    fails.append({'class': 'earlier_session_callback_invoked', 'step_index': si, 'expected': None,
+                                  'observed': {'callback': o[1], 'name': o[2], 'packet': list(rx[2]) if rx else None},
+                                  'detail': 'session %d: the callback of request (cmd %d, name %d) issued in session %d, never answered '
+                                            'before the link dropped, was invoked with a packet of the device of session %d'
+                                            % (k + 1, owner[o[1]][1], owner[o[1]][2], owner[o[1]][0] + 1, k + 1)})
+        for f in check_run(sc, rec):
+            f = dict(f)
+            f['detail'] = 'session %d of %d on one Param object: %s' % (k + 1, len(case['sessions']), f['detail'])
+            if k > 0:
+                f['class'] = 'later_session_' + f['class']
+            fails.append(f)
+    return fails
 
 
 def impl_trace(cfg, rec):
@@ -684,6 +845,7 @@ def corpus_cases():
 
 _runs = {}
 _xruns = {}
+_sruns = {}
 
 
 def _executions(ctx):
@@ -693,10 +855,14 @@ def _executions(ctx):
         return _runs[key]
     runs = []
     xruns = []
+    sruns = []
     for name, case in corpus_cases():
         case = dict(case)
         if case.get('kind') == 'ext':
             xruns.append((case, execute_ext(case, ctx.rng), 'corpus:' + name))
+            continue
+        if case.get('kind') == 'sess':
+            sruns.append((case, execute_sess(case, ctx.rng), 'corpus:' + name))
             continue
         rec = execute(case, ctx.rng)
         runs.append((case, rec, 'corpus:' + name))
@@ -706,6 +872,14 @@ def _executions(ctx):
         case['sched'] = rec['sched']
         xruns.append((case, rec, 'gen'))
     _xruns[key] = xruns
+    for k in range(ctx.scale(60, 1500)):
+        case = gen_sess_case(ctx.rng)
+        recs = execute_sess(case, ctx.rng)
+        for sc, rec in zip(case['sessions'], recs):
+            sc['sched'] = rec['sched']
+        case['sessions'] = case['sessions'][:len(recs)]
+        sruns.append((case, recs, 'gen'))
+    _sruns[key] = sruns
     n = ctx.scale(400, 8000)
     for k in range(n):
         case = gen_case(ctx.rng, small=(k % 4 == 0))
@@ -854,6 +1028,28 @@ def tie(ctx):
             d.update({'offset': k, 'model': mv[max(0, k - 6):k + 12], 'impl': xe[bi][max(0, k - 6):k + 12]})
         dis.append(d)
     nontriv += nx
+    # --- several sessions on one Param object
+    sruns = _sruns[(ctx.seed, ctx.tier)]
+    st_, se_ = [], []
+    nsess = 0
+    for case, recs, src in sruns:
+        for rec in recs:
+            for p in rec['problems']:
+                dis.append({'what': 'implementation run (sessions): ' + p['what'], 'case': case, 'detail': p})
+        st_.append(sess_term(case, recs))
+        se_.append(sess_trace(case, recs))
+        nsess += len(recs)
+        if len(recs) >= 2 and any(st['ev'][0] == 'I' and st['ev'][2][0] in ('set', 'misc') for st in recs[1]['steps']):
+            nontriv += 1
+    dist['sessions'] = nsess
+    dist['session_histories'] = len(sruns)
+    for bi, mv in compare_cases(st_, se_, 'c04s', max(8, len(st_) // 16 + 1)):
+        d = {'what': 'sessions on one Param object: model (every session starts from init of its own table) and implementation differ',
+             'case': sruns[bi][0]}
+        if mv is not None:
+            k = next((i for i in range(min(len(mv), len(se_[bi]))) if mv[i] != se_[bi][i]), min(len(mv), len(se_[bi])))
+            d.update({'offset': k, 'model': mv[max(0, k - 6):k + 12], 'impl': se_[bi][max(0, k - 6):k + 12]})
+        dis.append(d)
     # --- set_value alone, both index widths
     t2, e2, samples = _set_value_direct(ctx)
     for bi, mv in compare_cases(t2, e2, 'c04b', max(8, len(t2) // 16 + 1)):
@@ -862,7 +1058,7 @@ def tie(ctx):
     if ex:
         samples.append({'threads': ex[0]['threads'], 'schedule_head': ex[1]['sched'][:12], 'steps': len(ex[1]['steps'])})
     return {
-        'evaluations': len(terms) + len(t2) + len(xt),
+        'evaluations': len(terms) + len(t2) + len(xt) + nsess,
         'distinct_nontrivial': nontriv,
         'rule': 'event-list cases: >= 2 user threads actually issued, >= 2 requests pending at some point (queue + in hand + '
                 'on the wire) and >= 3 packets sent; distinct by digest of the full observation/state trace. After every step '
@@ -979,6 +1175,10 @@ def check_run(case, rec):
             elif op[0] == 'read' and op[1] not in toc_n:
                 if len(enq) != n_enq_before:
                     fail('unknown_param_read_transmitted', 'request_param_update of an unknown name queued a request', step=si)
+            elif op[0] == 'misc' and op[2] not in toc_n:
+                if len(enq) != n_enq_before:
+                    fail('unknown_param_request_transmitted', 'misc request %d for a name the connected device does not have was queued' % op[1],
+                         expected='refused', observed=[[c_, list(d_)] for c_, d_ in enq[n_enq_before:]], step=si)
             elif op[0] == 'misc' and op[3] is not None and len(enq) == n_enq_before + 1:
                 requests.append({'cb': op[3], 'cmd': op[1], 'name': op[2], 'enq_index': n_enq_before})
         # ---- wire discipline
@@ -1169,6 +1369,27 @@ def oracle(ctx, deep=False):
             fails.append({'class': f['class'], 'case': {'kind': 'ext', 'cfg': case['cfg'], 'sched': rec['sched']},
                           'expected': f.get('expected'), 'observed': f.get('observed'),
                           'detail': '%s (step %s; source %s)' % (f['detail'], f.get('step_index'), src)})
+    sruns = list(_sruns[(ctx.seed, ctx.tier)])
+    if deep:
+        for k in range(ctx.scale(150, 600)):
+            case = gen_sess_case(ctx.rng)
+            recs = execute_sess(case, ctx.rng)
+            for sc, rec in zip(case['sessions'], recs):
+                sc['sched'] = rec['sched']
+            case['sessions'] = case['sessions'][:len(recs)]
+            sruns.append((case, recs, 'deep'))
+    order = sorted(range(len(sruns)), key=lambda i: (0 if sruns[i][2].startswith('corpus') else 1, sum(len(r['steps']) for r in sruns[i][1])))
+    for i in order:
+        case, recs, src = sruns[i]
+        n += len(recs)
+        for f in check_sess(case, recs):
+            if f['class'] in seen:
+                continue
+            seen.add(f['class'])
+            c = {'kind': 'sess', 'sessions': [{'cfg': sc['cfg'], 'threads': sc['threads'], 'sched': rec['sched']}
+                                              for sc, rec in zip(case['sessions'], recs)]}
+            fails.append({'class': f['class'], 'case': c, 'expected': f.get('expected'), 'observed': f.get('observed'),
+                          'detail': '%s (step %s; source %s)' % (f['detail'], f.get('step_index'), src)})
     fails += _direct_float_overflow()
     return {'evaluations': n + 3, 'failures': fails,
             'rule': 'per execution: set_value bytes vs independent encoder (int.to_bytes / numpy), refusal without '
@@ -1186,6 +1407,10 @@ def replay(payload, ctx):
         case = {'kind': 'ext', 'cfg': c['cfg'], 'sched': c['sched']}
         rec = execute_ext(case, ctx.rng)
         fs = check_ext_run(case, rec)
+    elif c.get('kind') == 'sess':
+        recs = execute_sess(c, ctx.rng)
+        fs = check_sess(c, recs)
+        rec = {'problems': [p for r in recs for p in r['problems']]}
     else:
         case = {'cfg': c['cfg'], 'threads': c['threads'], 'sched': c['sched']}
         rec = execute(case, ctx.rng)
